@@ -37,6 +37,9 @@ def holds_T(l):
 
 def run(ctx):
     r = uroles(ctx)
+    if r.ADD_DELEGATES:
+        from .engine import Undecided
+        raise Undecided(r.ADD_DELEGATES)
     prog = ctx.prog
     bodies = r.bodies()
 
